@@ -4,6 +4,7 @@ import (
 	"go/ast"
 	"go/token"
 	"go/types"
+	"strings"
 )
 
 // Syntax normalisation applied once after type-checking, so that rules see
@@ -19,6 +20,7 @@ import (
 // fallthrough would change its meaning.
 
 func (p *Prog) normalizeAST() {
+	p.inlineKernelPredicates()
 	for _, fd := range p.Funcs {
 		if fd.Body == nil {
 			continue
@@ -33,6 +35,7 @@ func (p *Prog) normalizeAST() {
 			return true
 		})
 		p.normBlock(fd.Body)
+		p.inlineExplainingVars(fd)
 	}
 }
 
@@ -454,4 +457,588 @@ func (p *Prog) inlineSwitchInit(sw *ast.SwitchStmt) {
 		}
 	}
 	sw.Init = nil
+}
+
+// N4: a call of a bool-valued helper of the integer kernel types (uint128.isZero and the like) whose body
+// is a single `return <expr over the receiver>` is replaced by that expression with the receiver
+// substituted. The copy carries the type information of the original nodes.
+func (p *Prog) inlineKernelPredicates() {
+	type pred struct {
+		fd   *ast.FuncDecl
+		recv types.Object
+		expr ast.Expr
+	}
+	preds := map[*ast.FuncDecl]pred{}
+	for _, fd := range p.Funcs {
+		if fd.Body == nil || fd.Recv == nil || len(fd.Recv.List) != 1 || len(fd.Recv.List[0].Names) != 1 || fd.Name.IsExported() {
+			continue
+		}
+		if !strings.HasPrefix(recvTypeName(fd.Recv.List[0].Type), "uint") {
+			continue
+		}
+		if fd.Type.Params != nil && fd.Type.Params.NumFields() != 0 {
+			continue
+		}
+		if len(fd.Body.List) != 1 {
+			continue
+		}
+		r, ok := fd.Body.List[0].(*ast.ReturnStmt)
+		if !ok || len(r.Results) != 1 {
+			continue
+		}
+		if t := p.typeOf(r.Results[0]); t == nil || t.Underlying() != types.Typ[types.Bool].Underlying() {
+			if b, ok := t.Underlying().(*types.Basic); !ok || b.Info()&types.IsBoolean == 0 {
+				continue
+			}
+		}
+		pure := true
+		ast.Inspect(r.Results[0], func(n ast.Node) bool {
+			switch n.(type) {
+			case *ast.CallExpr, *ast.FuncLit:
+				pure = false
+			}
+			return pure
+		})
+		if !pure {
+			continue
+		}
+		preds[fd] = pred{fd, p.Info.Defs[fd.Recv.List[0].Names[0]], r.Results[0]}
+	}
+	if len(preds) == 0 {
+		return
+	}
+	var clone func(e ast.Expr, recv types.Object, arg ast.Expr) ast.Expr
+	clone = func(e ast.Expr, recv types.Object, arg ast.Expr) ast.Expr {
+		var out ast.Expr
+		switch x := e.(type) {
+		case *ast.Ident:
+			if p.Info.Uses[x] == recv {
+				return arg
+			}
+			return x
+		case *ast.BasicLit:
+			return x
+		case *ast.ParenExpr:
+			out = &ast.ParenExpr{Lparen: x.Lparen, X: clone(x.X, recv, arg), Rparen: x.Rparen}
+		case *ast.UnaryExpr:
+			out = &ast.UnaryExpr{OpPos: x.OpPos, Op: x.Op, X: clone(x.X, recv, arg)}
+		case *ast.BinaryExpr:
+			out = &ast.BinaryExpr{X: clone(x.X, recv, arg), OpPos: x.OpPos, Op: x.Op, Y: clone(x.Y, recv, arg)}
+		case *ast.IndexExpr:
+			out = &ast.IndexExpr{X: clone(x.X, recv, arg), Lbrack: x.Lbrack, Index: clone(x.Index, recv, arg), Rbrack: x.Rbrack}
+		case *ast.SelectorExpr:
+			n := &ast.SelectorExpr{X: clone(x.X, recv, arg), Sel: x.Sel}
+			if s, ok := p.Info.Selections[x]; ok {
+				p.Info.Selections[n] = s
+			}
+			out = n
+		case *ast.CompositeLit:
+			n := &ast.CompositeLit{Type: x.Type, Lbrace: x.Lbrace, Rbrace: x.Rbrace}
+			for _, el := range x.Elts {
+				n.Elts = append(n.Elts, clone(el, recv, arg))
+			}
+			out = n
+		default:
+			return e
+		}
+		if tv, ok := p.Info.Types[e]; ok {
+			p.Info.Types[out] = tv
+		}
+		return out
+	}
+	pureArg := func(e ast.Expr) bool {
+		switch y := ast.Unparen(e).(type) {
+		case *ast.Ident:
+			return true
+		case *ast.SelectorExpr:
+			_, ok := p.Info.Selections[y]
+			return ok
+		}
+		return false
+	}
+	var rewrite func(e ast.Expr) ast.Expr
+	rewrite = func(e ast.Expr) ast.Expr {
+		switch x := e.(type) {
+		case *ast.CallExpr:
+			for i, a := range x.Args {
+				x.Args[i] = rewrite(a)
+			}
+			if sel, ok := x.Fun.(*ast.SelectorExpr); ok && len(x.Args) == 0 {
+				if f, ok := p.Info.Uses[sel.Sel].(*types.Func); ok {
+					if fd := p.FuncObj[f]; fd != nil {
+						if pr, ok := preds[fd]; ok && pureArg(sel.X) {
+							n := clone(pr.expr, pr.recv, sel.X)
+							par := &ast.ParenExpr{Lparen: x.Pos(), X: n, Rparen: x.End()}
+							if tv, ok := p.Info.Types[x]; ok {
+								p.Info.Types[par] = tv
+							}
+							return par
+						}
+					}
+				}
+			}
+			return x
+		case *ast.ParenExpr:
+			x.X = rewrite(x.X)
+		case *ast.UnaryExpr:
+			x.X = rewrite(x.X)
+		case *ast.BinaryExpr:
+			x.X = rewrite(x.X)
+			x.Y = rewrite(x.Y)
+		}
+		return e
+	}
+	for _, fd := range p.Funcs {
+		if fd.Body == nil {
+			continue
+		}
+		if _, isPred := preds[fd]; isPred {
+			continue
+		}
+		ast.Inspect(fd.Body, func(n ast.Node) bool {
+			switch x := n.(type) {
+			case *ast.IfStmt:
+				x.Cond = rewrite(x.Cond)
+			case *ast.ForStmt:
+				if x.Cond != nil {
+					x.Cond = rewrite(x.Cond)
+				}
+			case *ast.ReturnStmt:
+				for i, r := range x.Results {
+					x.Results[i] = rewrite(r)
+				}
+			case *ast.AssignStmt:
+				for i, r := range x.Rhs {
+					x.Rhs[i] = rewrite(r)
+				}
+			case *ast.CaseClause:
+				for i, r := range x.List {
+					x.List[i] = rewrite(r)
+				}
+			case *ast.ValueSpec:
+				for i, r := range x.Values {
+					x.Values[i] = rewrite(r)
+				}
+			}
+			return true
+		})
+	}
+}
+
+// N5: explaining variables. A local defined exactly once as `v := E` (or in a tuple `a, b := E1, E2`),
+// where E reads a limb, a field or a masked/shifted word of other variables without calling anything,
+// is replaced by E at every use, provided that on every path from the definition to a use none of the
+// variables E mentions has been assigned (checked on the structured syntax, branch by branch). The
+// definition itself stays; it is then unused.
+func (p *Prog) inlineExplainingVars(fd *ast.FuncDecl) {
+	type cand struct {
+		obj  types.Object
+		expr ast.Expr
+		def  *ast.AssignStmt
+		deps map[types.Object]bool
+	}
+	// count definitions/assignments per object
+	assigns := map[types.Object]int{}
+	ast.Inspect(fd.Body, func(n ast.Node) bool {
+		switch x := n.(type) {
+		case *ast.AssignStmt:
+			for _, l := range x.Lhs {
+				if id, ok := ast.Unparen(l).(*ast.Ident); ok {
+					if o := p.objOf(id); o != nil {
+						assigns[o]++
+					}
+				}
+			}
+		case *ast.IncDecStmt:
+			if id, ok := ast.Unparen(x.X).(*ast.Ident); ok {
+				if o := p.objOf(id); o != nil {
+					assigns[o] += 2
+				}
+			}
+		case *ast.RangeStmt:
+			for _, l := range []ast.Expr{x.Key, x.Value} {
+				if id, ok := l.(*ast.Ident); ok {
+					if o := p.objOf(id); o != nil {
+						assigns[o] += 2
+					}
+				}
+			}
+		case *ast.UnaryExpr:
+			if x.Op == token.AND {
+				if id, ok := ast.Unparen(x.X).(*ast.Ident); ok {
+					if o := p.objOf(id); o != nil {
+						assigns[o] += 2 // address taken
+					}
+				}
+			}
+		}
+		return true
+	})
+	var explains func(e ast.Expr, deps map[types.Object]bool, top bool) bool
+	explains = func(e ast.Expr, deps map[types.Object]bool, top bool) bool {
+		switch x := ast.Unparen(e).(type) {
+		case *ast.Ident:
+			if o := p.objOf(x); o != nil {
+				if _, isVar := o.(*types.Var); isVar {
+					deps[o] = true
+					return !top // a bare copy `v := w` is not an explaining variable
+				}
+			}
+			return p.constOf(x) != nil
+		case *ast.BasicLit:
+			return true
+		case *ast.IndexExpr:
+			if _, ok := p.constInt64(x.Index); !ok {
+				return false
+			}
+			if t := p.typeOf(x.X); t != nil {
+				if _, isArr := t.Underlying().(*types.Array); !isArr {
+					return false
+				}
+			}
+			return explains(x.X, deps, false)
+		case *ast.SelectorExpr:
+			if _, ok := p.Info.Selections[x]; !ok {
+				return p.constOf(x) != nil
+			}
+			return explains(x.X, deps, false)
+		case *ast.BinaryExpr:
+			switch x.Op {
+			case token.AND, token.OR, token.SHL, token.SHR, token.AND_NOT:
+				return explains(x.X, deps, false) && explains(x.Y, deps, false)
+			}
+			return false
+		case *ast.CallExpr:
+			if tv, ok := p.Info.Types[x.Fun]; ok && tv.IsType() && len(x.Args) == 1 && !top {
+				return explains(x.Args[0], deps, false)
+			}
+			return false
+		}
+		return false
+	}
+	var cands []*cand
+	ast.Inspect(fd.Body, func(n ast.Node) bool {
+		as, ok := n.(*ast.AssignStmt)
+		if !ok || as.Tok != token.DEFINE || len(as.Lhs) != len(as.Rhs) {
+			return true
+		}
+		for i, l := range as.Lhs {
+			id, ok := l.(*ast.Ident)
+			if !ok || id.Name == "_" {
+				continue
+			}
+			o := p.Info.Defs[id]
+			if o == nil || assigns[o] != 1 {
+				continue
+			}
+			if p.constOf(as.Rhs[i]) != nil {
+				continue
+			}
+			deps := map[types.Object]bool{}
+			if !explains(as.Rhs[i], deps, true) || len(deps) == 0 {
+				continue
+			}
+			// the declared type must be the expression's own type
+			if t := p.typeOf(as.Rhs[i]); t == nil || !types.Identical(t, o.Type()) {
+				continue
+			}
+			cands = append(cands, &cand{o, as.Rhs[i], as, deps})
+		}
+		return true
+	})
+	for _, cd := range cands {
+		valid := true
+		started := false
+		touches := func(n ast.Node) bool { // n assigns one of the deps
+			hit := false
+			ast.Inspect(n, func(m ast.Node) bool {
+				switch x := m.(type) {
+				case *ast.AssignStmt:
+					for _, l := range x.Lhs {
+						var base ast.Expr = l
+						for {
+							switch b := ast.Unparen(base).(type) {
+							case *ast.IndexExpr:
+								base = b.X
+								continue
+							case *ast.SelectorExpr:
+								base = b.X
+								continue
+							case *ast.StarExpr:
+								base = b.X
+								continue
+							}
+							break
+						}
+						if id, ok := ast.Unparen(base).(*ast.Ident); ok && cd.deps[p.objOf(id)] {
+							hit = true
+						}
+					}
+				case *ast.IncDecStmt:
+					if id, ok := ast.Unparen(x.X).(*ast.Ident); ok && cd.deps[p.objOf(id)] {
+						hit = true
+					}
+				case *ast.RangeStmt:
+					for _, l := range []ast.Expr{x.Key, x.Value} {
+						if id, ok := l.(*ast.Ident); ok && cd.deps[p.objOf(id)] {
+							hit = true
+						}
+					}
+				case *ast.CallExpr:
+					// a pointer-receiver method on a dep may modify it
+					if sel, ok := x.Fun.(*ast.SelectorExpr); ok {
+						if s := p.Info.Selections[sel]; s != nil {
+							if f, ok := s.Obj().(*types.Func); ok {
+								if sig, ok := f.Type().(*types.Signature); ok && sig.Recv() != nil {
+									if _, isPtr := sig.Recv().Type().(*types.Pointer); isPtr {
+										if id, ok := ast.Unparen(sel.X).(*ast.Ident); ok && cd.deps[p.objOf(id)] {
+											hit = true
+										}
+									}
+								}
+							}
+						}
+					}
+				}
+				return !hit
+			})
+			return hit
+		}
+		usesIn := func(n ast.Node) bool {
+			u := false
+			if n == nil {
+				return false
+			}
+			ast.Inspect(n, func(m ast.Node) bool {
+				if id, ok := m.(*ast.Ident); ok && p.Info.Uses[id] == cd.obj {
+					u = true
+				}
+				return !u
+			})
+			return u
+		}
+		ok := true
+		// walk returns the validity after the list (false if invalidated on some continuing path)
+		var walk func(list []ast.Stmt, v bool) bool
+		var stmt func(s ast.Stmt, v bool) bool
+		stmt = func(s ast.Stmt, v bool) bool {
+			if !started {
+				if s == ast.Stmt(cd.def) {
+					started = true
+					return true
+				}
+				// descend to find the definition
+				switch x := s.(type) {
+				case *ast.BlockStmt:
+					return walk(x.List, v)
+				case *ast.IfStmt:
+					a := walk(x.Body.List, v)
+					b := v
+					if x.Else != nil {
+						b = stmt(x.Else, v)
+					}
+					return a && b
+				case *ast.ForStmt:
+					r := walk(x.Body.List, v)
+					if started && touches(x) && usesIn(x) {
+						ok = false // defined inside a loop that changes its sources: keep it simple, give up
+					}
+					return r
+				case *ast.SwitchStmt:
+					r := v
+					for _, cc := range x.Body.List {
+						r = walk(cc.(*ast.CaseClause).Body, v) && r
+					}
+					return r
+				case *ast.LabeledStmt:
+					return stmt(x.Stmt, v)
+				}
+				return v
+			}
+			switch x := s.(type) {
+			case *ast.BlockStmt:
+				return walk(x.List, v)
+			case *ast.IfStmt:
+				if x.Init != nil {
+					v = stmt(x.Init, v)
+				}
+				if usesIn(x.Cond) && !v {
+					ok = false
+				}
+				a := walk(x.Body.List, v)
+				if exitsBlock(x.Body.List) {
+					a = true
+				}
+				b := v
+				if x.Else != nil {
+					b = stmt(x.Else, v)
+					if eb, isBlk := x.Else.(*ast.BlockStmt); isBlk && exitsBlock(eb.List) {
+						b = true
+					}
+				}
+				return a && b
+			case *ast.ForStmt:
+				if x.Init != nil {
+					v = stmt(x.Init, v)
+				}
+				if touches(x) {
+					if usesIn(x) {
+						ok = false
+					}
+					return false
+				}
+				if usesIn(x) && !v {
+					ok = false
+				}
+				return v
+			case *ast.RangeStmt:
+				if touches(x) {
+					if usesIn(x) {
+						ok = false
+					}
+					return false
+				}
+				if usesIn(x) && !v {
+					ok = false
+				}
+				return v
+			case *ast.SwitchStmt:
+				if x.Init != nil {
+					v = stmt(x.Init, v)
+				}
+				if usesIn(x.Tag) && !v {
+					ok = false
+				}
+				// case expressions are evaluated before any body
+				for _, cc := range x.Body.List {
+					for _, e := range cc.(*ast.CaseClause).List {
+						if usesIn(e) && !v {
+							ok = false
+						}
+					}
+				}
+				r := true
+				for _, cc := range x.Body.List {
+					cl := cc.(*ast.CaseClause)
+					o := walk(cl.Body, v)
+					if exitsBlock(cl.Body) && !endsWithBreak(cl.Body) {
+						o = true
+					}
+					r = r && o
+				}
+				return r && v
+			case *ast.LabeledStmt:
+				return stmt(x.Stmt, v)
+			default:
+				// uses are evaluated before the statement's own assignments take effect
+				if usesIn(s) && !v {
+					ok = false
+				}
+				if touches(s) {
+					return false
+				}
+				return v
+			}
+		}
+		walk = func(list []ast.Stmt, v bool) bool {
+			for _, s := range list {
+				v = stmt(s, v)
+			}
+			return v
+		}
+		walk(fd.Body.List, valid)
+		if !ok || !started {
+			continue
+		}
+		// substitute
+		var sub func(e ast.Expr) ast.Expr
+		sub = func(e ast.Expr) ast.Expr {
+			switch x := e.(type) {
+			case *ast.Ident:
+				if p.Info.Uses[x] == cd.obj {
+					par := &ast.ParenExpr{Lparen: x.Pos(), X: cd.expr, Rparen: x.End()}
+					if tv, ok := p.Info.Types[x]; ok {
+						p.Info.Types[par] = tv
+					}
+					return par
+				}
+			case *ast.ParenExpr:
+				x.X = sub(x.X)
+			case *ast.UnaryExpr:
+				x.X = sub(x.X)
+			case *ast.BinaryExpr:
+				x.X, x.Y = sub(x.X), sub(x.Y)
+			case *ast.CallExpr:
+				for i, a := range x.Args {
+					x.Args[i] = sub(a)
+				}
+				if sel, ok := x.Fun.(*ast.SelectorExpr); ok {
+					sel.X = sub(sel.X)
+				}
+			case *ast.IndexExpr:
+				x.X, x.Index = sub(x.X), sub(x.Index)
+			case *ast.SelectorExpr:
+				x.X = sub(x.X)
+			case *ast.SliceExpr:
+				x.X = sub(x.X)
+				if x.Low != nil {
+					x.Low = sub(x.Low)
+				}
+				if x.High != nil {
+					x.High = sub(x.High)
+				}
+			case *ast.CompositeLit:
+				for i, el := range x.Elts {
+					x.Elts[i] = sub(el)
+				}
+			case *ast.KeyValueExpr:
+				x.Value = sub(x.Value)
+			case *ast.StarExpr:
+				x.X = sub(x.X)
+			}
+			return e
+		}
+		ast.Inspect(fd.Body, func(n ast.Node) bool {
+			switch x := n.(type) {
+			case *ast.IfStmt:
+				x.Cond = sub(x.Cond)
+			case *ast.ForStmt:
+				if x.Cond != nil {
+					x.Cond = sub(x.Cond)
+				}
+			case *ast.SwitchStmt:
+				if x.Tag != nil {
+					x.Tag = sub(x.Tag)
+				}
+			case *ast.CaseClause:
+				for i, e := range x.List {
+					x.List[i] = sub(e)
+				}
+			case *ast.ReturnStmt:
+				for i, r := range x.Results {
+					x.Results[i] = sub(r)
+				}
+			case *ast.AssignStmt:
+				if x != cd.def {
+					for i, r := range x.Rhs {
+						x.Rhs[i] = sub(r)
+					}
+					for i, l := range x.Lhs {
+						if _, isId := l.(*ast.Ident); !isId {
+							x.Lhs[i] = sub(l)
+						}
+					}
+				}
+			case *ast.ExprStmt:
+				x.X = sub(x.X)
+			case *ast.IncDecStmt:
+				x.X = sub(x.X)
+			case *ast.ValueSpec:
+				for i, v := range x.Values {
+					x.Values[i] = sub(v)
+				}
+			}
+			return true
+		})
+	}
 }
